@@ -20,7 +20,7 @@ def run(ctx):
     # (1) operation histories: construction, writes, copy/move, assignment, conversion, dump+load, destruction, with a read of every
     #     cell of every live field after every operation (the lookups)
     hist_args = [3, 4, 2, 2, "bfs", 100, 600] if thorough else [2, 4, 2, 2, "bfs", 100, 300]
-    all_args = [2, 4, 3, 3, "all", 4 if thorough else 3, 600]
+    all_args = [2, 4, 3, 3, "all", 5 if thorough else 4, 600]
     for name, flags, runner in BUILDS:
         if not thorough and name == "O1_assert_valgrind":
             continue
